@@ -61,6 +61,8 @@ let print_verdict = function
 
 let judges : (string * (sx -> verdict)) list = [
   "C05", judge_C05;
+  "solve", judge_solve_case;
+  "C03", judge_C03;
 ]
 
 let () =
